@@ -37,6 +37,12 @@ def unfaithful_violation(ctx, e):
         ctx.violation({"kind": "implementation-blocked", "what": e.row["what"], "harness_output_tail": e.row.get("a"),
                        "harness_args": [str(a) for a in e.args]})
         return
+    if e.row.get("kind") == "options_modified":
+        ctx.violation({"kind": "lookup-modifies-the-callers-LookupOptions", "what": e.row["what"], "lookup": e.row.get("a"),
+                       "afterwards": e.row.get("b"), "harness_args": [str(a) for a in e.args],
+                       "explain": "the harness reuses one options value for consecutive lookups (as callers do with "
+                                  "storage.DefaultLookup) and compares it with a fresh copy after every lookup"})
+        return
     if e.row.get("kind") == "foreign_result":
         ctx.violation({"kind": "result-never-stored", "what": e.row["what"], "value": e.row.get("a"), "where": e.row.get("b"),
                        "harness_args": [str(a) for a in e.args]})
@@ -48,13 +54,16 @@ def unfaithful_violation(ctx, e):
                               "the property demands two; found by the harness self-check on a generated universe"})
 
 
-def hstore(args, timeout=1800):
-    rc, out = sh([os.path.join(BIN, "h_store")] + [str(a) for a in args], cwd=REPO, env=vcheck.goenv(), timeout=timeout)
+def hstore(args, timeout=1800, gomaxprocs=None):
+    env = vcheck.goenv()
+    if gomaxprocs is not None:
+        env["GOMAXPROCS"] = str(gomaxprocs)
+    rc, out = sh([os.path.join(BIN, "h_store")] + [str(a) for a in args], cwd=REPO, env=env, timeout=timeout)
     if rc == 3:
         # the harness found two values whose model keys and UUIDs disagree: the implementation identifies what the
         # property distinguishes (or the reverse); the last line describes the pair
         rows = [json.loads(l) for l in out.splitlines() if l.startswith("{")]
-        raise KeyUnfaithful([r for r in rows if r.get("kind") in ("key_unfaithful", "foreign_result")][-1], args)
+        raise KeyUnfaithful([r for r in rows if r.get("kind") in ("key_unfaithful", "foreign_result", "options_modified")][-1], args)
     if rc == 4:
         raise KeyUnfaithful({"kind": "stuck", "what": "implementation blocked: a Store/Graph call made by the harness did not "
                              "return within 120 s", "a": out[-600:], "b": ""}, args)
@@ -237,7 +246,7 @@ def explain_lookups(ctx, seed, hargs, h, step, spec):
     args = ["-mode", "detail", "-seed", seed, "-hist", h["idx"], "-step", step] + hargs
     if spec is not None:
         args += ["-spec", json.dumps(spec), "-ne"]
-    rows = [r for r in hstore(args) if r.get("kind") == "lookup"]
+    rows = [r for r in hstore(args, gomaxprocs=h.get("_gomaxprocs")) if r.get("kind") == "lookup"]
     if spec is None:
         qs = None
         los = [{"max": 0, "offset": 0}]
@@ -304,6 +313,8 @@ def report(ctx, seed, hargs, hists, bad, limit=2):
         step, comp = code // 16, code % 16
         v = {"kind": "model-vs-implementation", "history": h["idx"], "step": step, "component": COMPONENT.get(comp, comp),
              "seed": seed}
+        if h.get("_gomaxprocs"):
+            v["GOMAXPROCS"] = h["_gomaxprocs"]
         try:
             if comp <= 3:
                 v.update(explain_store(ctx, h, step))
@@ -340,6 +351,14 @@ def distribution(hists):
     return {"histories": len(hists), "steps": nsteps, "operation_mix": ops,
             "history_length_min_max": [min(sizes), max(sizes)] if sizes else [0, 0],
             "universe_sizes_min_max": [min(len(h["universe"]) for h in hists), max(len(h["universe"]) for h in hists)] if hists else [0, 0]}
+
+
+def single_proc_histories(seed, flags, hargs, n=8):
+    """a few ordinary histories run with GOMAXPROCS=1 (code paths that size worker pools by GOMAXPROCS)"""
+    hs = hstore(["-mode", "hist", "-first", 1000, "-n", n, "-seed", seed] + flags + hargs, gomaxprocs=1)
+    for h in hs:
+        h["_gomaxprocs"] = 1
+    return hs
 
 
 def replay(ctx, flags, hargs, cfg):
